@@ -30,7 +30,7 @@ func init() {
 		Text: "no base file system or base file (result of a base call, or the wrapped field itself) reaches a return operand or a foreign function unless wrapped by the package's own types (RoFile{baseFile:..}, rofs.New(..))",
 		Run:  c09Escape})
 	register(&Rule{ID: "C09.refuse", Floor: 20,
-		Text: "every RoFS/RoFile method whose interface method is classified mutating returns on all paths a provably non-nil error of the permission class (or fs.ErrInvalid under the nil-handle guard)",
+		Text: "every RoFS/RoFile method whose interface method is classified mutating returns on all paths a provably non-nil error of the permission class (or fs.ErrInvalid under the nil-handle guard); so do the identity setters of RoFS (SetIdm, SetUser, SetUserByName): the wrapper offers no identity manager of its own, and forwarding them would change the user under which every other holder of the base acts",
 		Run:  c09Refuse})
 	register(&Rule{ID: "C09.forward", Floor: 30,
 		Text: "every RoFS/RoFile method classified pure/read-only/handle-local/view-state that calls the base is a positional forward of its own parameters to the same-named base method and returns exactly the base's results",
@@ -381,6 +381,9 @@ func errLeaves(c *Config, v ssa.Value, depth int) []errLeaf {
 	return []errLeaf{{"?" + v.String(), false}}
 }
 
+// identitySetters: methods of a file system that replace the identity under which it acts.
+var identitySetters = map[string]bool{"SetIdm": true, "SetUser": true, "SetUserByName": true}
+
 func c09Refuse(rc *RuleCtx) {
 	for _, t := range []struct {
 		typ string
@@ -399,7 +402,7 @@ func c09Refuse(rc *RuleCtx) {
 		for _, name := range names {
 			e := t.tbl[name]
 			// OpenFile's refusing branch is covered by C09.effect (the guard) — here only the unconditional mutators
-			if e.e != effMutate {
+			if e.e != effMutate && !(t.typ == "RoFS" && identitySetters[name]) {
 				continue
 			}
 			f := ms[name]
